@@ -948,6 +948,37 @@ func checkC13Long(n int) outcome {
 	return outcome{}
 }
 
+// checkC13Deep: one input that nests a recursive production n levels deep, with every lookahead of the ladder.
+func checkC13Deep(n int) outcome {
+	g := gram.StaticGrammars()[0] // SR1: ( @Ident "(" @@ ")" | @Ident "(" @@ ";" | @Int )
+	ps, msg := buildLadder(g)
+	if msg != "" {
+		return violationf("harness", "deep-input grammar does not build: %s", msg)
+	}
+	in := strings.Repeat("a ( ", n) + "1" + strings.Repeat(" )", n)
+	var first *gram.Root
+	firstK := 0
+	for i, b := range ps.bs {
+		var ast *gram.Root
+		var err error
+		if pm := guardFor(func() { ast, err = b.P.ParseString("f", in) }, 6); pm != "" {
+			return violationf("deep-input", "`a (` nested %d deep, lookahead %d: %s", n, c13Ladder[i], pm)
+		}
+		if err != nil && first != nil {
+			return violationf("monotone", "`a ( ... 1 ... )` nested %d deep parses with lookahead %d but not with lookahead %d: %v", n, firstK, c13Ladder[i], err)
+		}
+		if err != nil {
+			continue
+		}
+		if first == nil {
+			first, firstK = ast, c13Ladder[i]
+		} else if !reflect.DeepEqual(ast, first) {
+			return violationf("ast", "`a ( ... 1 ... )` nested %d deep parses to different ASTs with lookahead %d and %d", n, firstK, c13Ladder[i])
+		}
+	}
+	return outcome{}
+}
+
 func TestC13(t *testing.T) {
 	var longOnce sync.Once
 	runProp(t, "C13", c13Rule, func(t *rapid.T, r *vstat.Run) {
@@ -956,6 +987,10 @@ func TestC13(t *testing.T) {
 			r.Eval()
 			r.Count("long_input_cases")
 			report(t, r, o, &gramCase{Text: "long input: 100100 names followed by `a + 1` against ( @Ident \"+\" @Int | @Ident )*"})
+			o = checkC13Deep(12000)
+			r.Eval()
+			r.Count("deep_input_cases")
+			report(t, r, o, &gramCase{Text: "deep input: `a (` nested 12000 deep against ( @Ident \"(\" @@ \")\" | @Ident \"(\" @@ \";\" | @Int )"})
 		})
 		o := gram.GenOpts{MaxProds: 4, MaxDepth: 4, TrapPercent: 30, NoLookNeg: true, PosStyles: true, Profiles: true, Parseables: true, Statics: true, NameElided: rapid.IntRange(0, 4).Draw(t, "named") == 0}
 		g := gram.GenGrammar(t, o)
@@ -980,6 +1015,9 @@ func TestC13Replay(t *testing.T) {
 			return violationf("harness", "bad replay: %v", err)
 		}
 		if c.G == nil {
+			if strings.HasPrefix(c.Text, "deep input") {
+				return checkC13Deep(12000)
+			}
 			return checkC13Long(100100) // the long-input case carries no grammar of its own
 		}
 		ps, msg := buildLadder(c.G)
